@@ -172,6 +172,9 @@ def compact(plan):
             s["fault"]["proxy"] = m[s["fault"]["proxy"]]
     p["observe"] = [[m[o], path] for o, path in plan.get("observe", []) if o in m]
     p["fp"] = [m[o] for o in plan.get("fp", []) if o in m]
+    for st in p.get("meta", {}).get("streams", []):
+        if st.get("obj") in m:
+            st["obj"] = m[st["obj"]]
     if "roles" in p.get("meta", {}):
         p["meta"]["roles"] = {str(m[int(k)]): v for k, v in p["meta"]["roles"].items() if int(k) in m}
     return p
